@@ -545,6 +545,8 @@ class ObjectBase(EntityContainer):
                 values = getattr(child, "_values", None)
                 if values is None:
                     values = child.workspace.fetch_values(child)
+                if values is None:
+                    continue
                 # (a one-element text array is held as a plain string)
                 child.values = np.delete(np.atleast_1d(values), indices, axis=0)
                 if clear_cache:
